@@ -198,6 +198,10 @@ def run(ctx):
         cases.append(one_case(rng, sections, rng.random() < 0.3))
     rejected, st = tlc.judge_cases('Conf_Sample', [strip(c) for c in cases], chunk=5000, timeout=3000)
     ctx.traces += len(cases)
+    from harness import canary
+    from checks import canaries
+    canary.probe(ctx, 'Conf_Sample', [c for i, c in enumerate(cases, 1) if i not in set(rejected)], canaries.sample,
+                 canary.by_cases('Conf_Sample', strip))
     for i in rejected:
         c = cases[i - 1]
         classes = {l['c'] for l in c['lines']}
